@@ -25,7 +25,7 @@ TRUSTED = [
 ]
 
 
-def build_and_run(ctx, prop, n, extra=()):
+def build_and_run(ctx, prop, n, extra=(), per=25):
     """Build the walk harness from /repo's tree, run the stream family of `prop`. Returns (cases, vfile) or (None, log)."""
     binp, out = ctx.harness_build("walk")
     if binp is None:
@@ -40,7 +40,7 @@ def build_and_run(ctx, prop, n, extra=()):
     json.dump(corpus, open(cpath, "w"))
     extra = list(extra) + ["-corpus", cpath]
     rc, out = vlib.sh([binp, "-out", vfile, "-jsonl", side, "-seed", str(ctx.seed), "-prop", prop, "-n", str(n),
-                       "-per", "25"] + list(extra), timeout=900)
+                       "-per", str(per)] + list(extra), timeout=1500)
     if rc != 0:
         raise RuntimeError("walk harness failed: " + out[-2000:])
     cases = [json.loads(l) for l in open(side)]
